@@ -66,8 +66,8 @@ type runner struct {
 	rng      *rand.Rand
 	grpKey   map[int][]int
 	grpCnt   map[int][]int
-	prevLog  []byte        // the previous call's result as logged
-	prevRead func() []byte // re-reads the slice the previous call returned
+	prevLog  []byte             // the previous call's result as logged
+	prevRead func() []byte      // re-reads the slice the previous call returned
 	place    func(n int) []byte // nil: a private array per call; else where the payload of n octets (plus what may be checked behind it) lies
 }
 
